@@ -67,6 +67,8 @@ def operations(tier):
     ops["ptm5"] = lambda da, aux: da.spec.partition.ptm5(fcut=0.11)
     ops["bbox"] = lambda da, aux: da.spec.partition.bbox([dict(fmin=0.06, fmax=0.11, dmin=50.0, dmax=200.0)])
     ops["ptm1_track"] = lambda da, aux: da.spec.partition.ptm1_track(aux["wspd"], aux["wdir"], aux["dpt"], swells=2)
+    ops["hp01"] = lambda da, aux: da.spec.partition.hp01(aux["wspd"], aux["wdir"], aux["dpt"], swells=2)
+    ops["hp01(no wind)"] = lambda da, aux: da.spec.partition.hp01(swells=2)
     ops["fit_jonswap"] = lambda da, aux: da.spec.fit_jonswap(spectra=False)
     if tier == "thorough":
         ops["fit_gaussian"] = lambda da, aux: da.spec.fit_gaussian(spectra=False)
